@@ -5,6 +5,7 @@ from vf.model import auction as A
 from vf.props import _session as SE
 
 ID = 'C09'
+USES_SIM = True
 LEVEL = 'exploration'
 RULE = ('simulated sessions (DESIGN.md section 4): the unmodified Server with its four seat threads and four conforming '
         'clients run inside a schedule-owning kernel; the schedule is a generated input: preemption lists, sparse '
@@ -28,7 +29,80 @@ def plan(tier):
     sh = [{'kind': 'sessions', 'n': per, 'max_boards': mb, 'play_prob': 3 if i % 4 else 1} for i in range(n)]
     nb, perb = (5, 100) if tier == 'quick' else (8, 3000)
     sh += [{'kind': 'bundled', 'n': perb, 'max_boards': mb} for _ in range(nb)]      # the bundled Client as the four players
+    # complete sets of schedules with <= 1 (thorough: also <= 2) deviations from the default policy
+    enum = [('P', 0, 1, 2), ('P', 1, 1, 2), ('PP', 0, 1, 4), ('PP', 1, 1, 4)] if tier == 'quick' else \
+        [('P', 0, 1, 1), ('P', 1, 1, 1), ('PP', 0, 1, 2), ('PP', 1, 1, 2), ('B', 0, 1, 16), ('B', 1, 1, 16), ('BP', 0, 1, 16), ('PB', 1, 1, 16),
+         ('P', 0, 2, 32), ('P', 1, 2, 32)]
+    for name, order, bound, of in enum:
+        sh += [{'kind': 'enumeration', 'scenario': name, 'order': order, 'bound': bound, 'shard': i, 'of': of} for i in range(of)]
     return sh
+
+
+# ---------------------------------------------------------------------------------------
+# preemption-bounded enumeration (complete finite sets of schedules for fixed small sessions)
+
+def fixed_scenario(name):
+    """Deterministic sessions: P = one passed-out board, B = one played board (1NT by North, dummy wins tricks),
+    and their two-board combinations."""
+    from vf.props import _play as PL
+    owner = [(c // 13 + (c % 13) % 4) % 4 for c in range(52)]       # every seat holds every suit
+    out = []
+    for i, ch in enumerate(name):
+        if ch == 'P':
+            out.append({'id': f'p{i}', 'dealer': i % 4, 'vul': 'None', 'owner': owner, 'dda': None, 'calls': [A.PASS] * 4, 'cards': []})
+        else:
+            calls = [A.PASS, 4, A.X, A.PASS, A.PASS, A.PASS] if i % 2 else [4, A.PASS, A.PASS, A.PASS]    # 1NT (doubled on odd boards)
+            dealer = (i + 3) % 4
+            res = A.result(dealer, calls)
+            cards, _ = PL.script_cards(owner, res[2], res[0] % 5, [(True, (j * 5) % 13) for j in range(52)])
+            out.append({'id': f'b{i}', 'dealer': dealer, 'vul': 'NS', 'owner': owner, 'dda': None, 'calls': calls, 'cards': cards})
+    return {'boards': out, 'teams': ['ns', 'ew'], 'arrival': [2, 0, 3, 1], 'fmt': {}}
+
+
+def run_enumeration(spec, stats):
+    """All schedules with at most `spec['bound']` deviations from the default policy (1: every (step, alternative) pair;
+    2: every pair of such pairs, the second enumerated on the run altered by the first)."""
+    from vf.sim.explore import Preemptions
+    scenario = fixed_scenario(spec['scenario'])
+    order, shard, of, bound = spec['order'], spec['shard'], spec['of'], spec['bound']
+
+    def points(at):
+        rec = []
+        r = SE.run_case(scenario, Preemptions(at, order, rec))
+        return r, [(step, k) for step, n in rec for k in range(1, n)]
+
+    def one(at):
+        sched = {'kind': 'pre', 'at': {str(s): k for s, k in at.items()}, 'order': order}
+        r = SE.run_case(scenario, sched)
+        SE.first_problem(SE.completion_problems(scenario, r), scenario, sched, r)
+        stats.evaluated()
+        stats.cls(f'enumerated: {spec["scenario"]} bound {bound} order {order}')
+        if r.outcome.max_waited >= 50:
+            stats.cls('runs with a real stall (>=50 steps)')
+        stats.nt(['enum', spec['scenario'], order, sorted(at.items())],
+                 {'enumerated_session': spec['scenario'], 'default_order': order, 'deviations': sorted(at.items()), 'steps': r.outcome.steps}
+                 if len(stats.samples) < 2 else None)
+
+    base, pts = points({})
+    SE.first_problem(SE.completion_problems(scenario, base), scenario, {'kind': 'pre', 'at': {}, 'order': order}, base)
+    if shard == 0:
+        stats.notes.append(f'enumeration {spec["scenario"]} order {order}: default run {base.outcome.steps} steps, {len(pts)} (step, alternative) points')
+    try:
+        if bound == 1:
+            for i, (step, k) in enumerate(pts):
+                if i % of == shard:
+                    one({step: k})
+        else:
+            for i, (step, k) in enumerate(pts):
+                if i % of != shard:
+                    continue
+                _, pts2 = points({step: k})
+                for step2, k2 in pts2:
+                    if step2 > step:
+                        one({step: k, step2: k2})
+    except Violation as v:
+        return [v]
+    return []
 
 
 def check_ref_session(scenario, schedule, stats=None, **kw):
@@ -56,6 +130,8 @@ def check_session(scenario, schedule, stats=None, policy=None, **kw):
 
 
 def run_shard(spec, seed, tier, stats):
+    if spec['kind'] == 'enumeration':
+        return run_enumeration(spec, stats)
     if spec['kind'] == 'bundled':
         v = run_hypothesis(lambda scenario, schedule, policy: SE.check_bundled(scenario, schedule, policy, stats),
                            {'scenario': SE.bundled_scenario(spec['max_boards']), 'schedule': SE.SCHEDULE(), 'policy': SE.POLICY},
